@@ -95,7 +95,7 @@ Definition is_io (e:hev) : bool := match e with HRead | HWrite => true | _ => fa
                           | fault-cleanup Close )   -- failure, connection closed last
    and after an injected fault nothing but the TLS layer's close-notify attempt
    (SetWriteDeadline / Write) precedes the Close. *)
-Inductive cphase := CStart | CArmed | CFaulted | CDoneOk | CZeroFault | CClosing | CClosed.
+Inductive cphase := CStart | CArmed | CFaulted | CDoneOk | CZeroFault | CClosing | CClosed | CClosedW.
 
 Definition cstep (deadline early_io:bool) (p:cphase) (e:hev) : option cphase :=
   match p, e with
@@ -120,6 +120,9 @@ Definition cstep (deadline early_io:bool) (p:cphase) (e:hev) : option cphase :=
   | CZeroFault, (HSetWDL _ | HSetDL true | HWrite | HFail) => Some CFaulted
   | CZeroFault, HClose => Some CClosed
   | CClosed, HClose => Some CClosed                    (* Close is idempotent for the layers above *)
+  | (CClosed | CClosedW), (HWrite | HSetWDL _) => Some CClosedW   (* a TLS layer whose connection was closed under it (context
+                                                          expired) still tries to send its alert: it fails, and ... *)
+  | CClosedW, HClose => Some CClosed                   (* ... the layer then closes again *)
   | _, _ => None
   end.
 
@@ -180,6 +183,7 @@ Fixpoint io_before_deadline (tr:list hev) : bool :=
   | HSetDL false :: _ => false
   | HFail :: _ => false
   | HSetWDL _ :: _ => false     (* the client handshake never sets a write deadline: this starts a TLS layer's shutdown *)
+  | HClose :: _ => false        (* what a layer attempts on a closed connection is no handshake I/O *)
   | e :: r => is_io e || io_before_deadline r
   end.
 
